@@ -73,4 +73,10 @@ where
     pub fn clear(&mut self) {
         self.allocator.clear();
     }
+
+    /// Free id intervals (verification hook, read-only)
+    #[cfg(feature = "verif-hooks")]
+    pub fn verif_intervals(&self) -> alloc::vec::Vec<(T, T)> {
+        self.allocator.verif_intervals()
+    }
 }
